@@ -22,7 +22,7 @@ def deepen(tree):
     return {"k": "F", "e": e}
 
 
-def build_operand(tree, emb, fmt, oids, name):
+def build_operand(tree, emb, fmt, oids, name, dflt=0):
     """-> (fiber to iterate, projector)"""
     if emb == "tensor2":
         t = proj.build_tensor(deepen(tree), ["K", "M"], name=name)
@@ -30,11 +30,11 @@ def build_operand(tree, emb, fmt, oids, name):
             t.setFormat("K", "U")
         return t.getRoot(), (lambda: proj.proj_tensor(t, oids))
     if emb == "tensor1":
-        t = proj.build_tensor(tree, ["K"], shape=[NCMAX], name=name)
+        t = proj.build_tensor(tree, ["K"], shape=[NCMAX], name=name, default=dflt)
         if fmt == "U":
             t.setFormat("K", "U")
         return t.getRoot(), (lambda: proj.proj_tensor(t, oids))
-    f = proj.build_fiber(tree, shape=[NCMAX])
+    f = proj.build_fiber(tree, default=dflt, shape=[NCMAX])
     if fmt == "U":
         f.getRankAttrs().setFormat("U")
     return f, (lambda: {"rank0": 0, "root": proj.proj_fiber(f, None, oids), "ranks": []})
@@ -48,12 +48,12 @@ def execute(case):
     oids = proj.Oids()
     kind, op, emb = case["kind"], case["op"], case["emb"]
     fmts = case.get("fmt") or ["C"] * len(case["ops"])
-    out = {"tid": case["tid"], "kind": kind, "op": op, "emb": emb, "dflt": 0, "fmt": fmts, "exc": "ok", "ys": [],
+    out = {"tid": case["tid"], "kind": kind, "op": op, "emb": emb, "dflt": case.get("dflt", 0), "fmt": fmts, "exc": "ok", "ys": [],
            "wt": {"done": 0, "k": 1, "pt": [], "v": 0, "after": {"root": {"k": "F", "e": []}}}}
     try:
         if kind == "prefix":
             return exec_prefix(case, out, oids)
-        built = [build_operand(t, emb, fmts[k], oids, "T%d" % k) for k, t in enumerate(case["ops"])]
+        built = [build_operand(t, emb, fmts[k], oids, "T%d" % k, case.get("dflt", 0)) for k, t in enumerate(case["ops"])]
         fibers = [b[0] for b in built]
         out["act"] = [[int(x) for x in f.getActive()] for f in fibers]
         out["pre"] = [b[1]() for b in built]
